@@ -201,7 +201,7 @@ func (s *Set) parseFile(path, rel string) error {
 			return fmt.Errorf("%s:%d: clause %q outside a func block", path, ln, t)
 		}
 		switch word {
-		case "pure", "inline", "trusted", "orderlaws", "mergelaws", "nopanic", "noident", "fromlog", "maprange":
+		case "pure", "inline", "trusted", "orderlaws", "sortlaws", "merge_sound", "rulesmerge", "mergelaws", "nopanic", "noident", "fromlog", "maprange":
 			cur.Flags[word] = true
 			if rest != "" {
 				cur.Opts[word] = rest
@@ -286,3 +286,7 @@ func (s *Set) parseFile(path, rel string) error {
 	}
 	return nil
 }
+
+// ParseClause parses a stand-alone contract expression (used for carve-outs kept in
+// known_findings.json).
+func ParseClause(text, file string) (Clause, error) { return parseExpr(text, file, 0) }
